@@ -36,13 +36,29 @@ Theorem C15_preauth_history :
 Proof. exact preauth_history. Qed.
 Print Assumptions C15_preauth_history.
 
-(* non-vacuity / contrast: after a successful password the same CHANNEL_OPEN does consult the
-   application and creates a channel; before it, it is refused *)
 Definition okpw : packet * env :=
   (PAuth (Msg50 [97] s_connection (BPassword false)), MkEnv RSuccess false false [] true 1 true false false).
 Definition badpw : packet * env :=
   (PAuth (Msg50 [97] s_connection (BPassword false)), MkEnv RPartial false false [] true 1 true false false).
-Definition chopen : packet * env := (PConn 90 7 true, snd okpw).
+(* the generated tables / bounds are the ones the statements above are about: every key of
+   Transport._handler_table that is a connection-layer type, the channel table and the bound *)
+Theorem C15_generated_tables :
+  filter (fun p => 80 <=? p) handler_types = [80; 81; 82; 90; 91; 92] /\
+  channel_types = [93; 94; 95; 96; 97; 98; 99; 100] /\ highest_userauth = 79 /\
+  forallb (fun p => (highest_userauth <? p) && (p <=? 100)) (filter (fun p => 80 <=? p) handler_types ++ channel_types) = true.
+Proof. exact generated_tables. Qed.
+Print Assumptions C15_generated_tables.
+
+(* a CHANNEL_OPEN whose kind is not valid UTF-8 makes _ensure_authed raise: the run loop ends,
+   nothing is dispatched *)
+Example C15_example_bad_kind :
+  let '(ts, outs) := loop_run toy_sig_ok [] (tinit true) [(PConn 90 7 true false, snd okpw)] in
+  outs = [TRaise UnicodeErr] /\ a_active (t_auth ts) = false /\ t_chans ts = [].
+Proof. vm_compute. repeat split. Qed.
+
+(* non-vacuity / contrast: after a successful password the same CHANNEL_OPEN does consult the
+   application and creates a channel; before it, it is refused *)
+Definition chopen : packet * env := (PConn 90 7 true true, snd okpw).
 Example C15_example_contrast :
   (let '(ts, outs) := loop_run toy_sig_ok [] (tinit true) [okpw; chopen] in
    In (TCallback 90) outs /\ t_chans ts = [0]) /\
